@@ -339,6 +339,29 @@ func dischargeAll(dir string, items []oblItem, timeoutS int, waitAll bool) {
 		}(i)
 	}
 	wg.Wait()
+	// Second chance against machine load: an obligation on which every solver ran out of time (none answered
+	// "unknown" or "sat") is retried with nothing else running and three times the budget, so that a busy machine
+	// cannot turn a proof that takes a few seconds into an alarm. At most eight retries, two at a time.
+	var retry []int
+	for i := range items {
+		o := items[i].o
+		if o.Status == "undischarged" && o.Expect != "sat" && strings.Contains(o.Output, " timeout ") && !strings.Contains(o.Output, " unknown ") && len(retry) < 8 {
+			retry = append(retry, i)
+		}
+	}
+	sem2 := make(chan struct{}, 2)
+	for _, i := range retry {
+		wg.Add(1)
+		sem2 <- struct{}{}
+		go func(i int) {
+			defer wg.Done()
+			defer func() { <-sem2 }()
+			first := items[i].o.Output
+			discharge(dir, i, items[i].vc, items[i].o, timeoutS*3, waitAll)
+			items[i].o.Output = "retried alone after timeouts under load: " + items[i].o.Output + " || first attempt: " + first
+		}(i)
+	}
+	wg.Wait()
 }
 
 type oblItem struct {
